@@ -92,6 +92,8 @@ def _sl(a, blk):
 
 def _block_scales(rs, nb, mode):
     import numpy as np
+    if isinstance(mode, (list, tuple)):
+        return np.array([float(x) for x in mode][:nb] + [1.0] * max(0, nb - len(mode)))
     if mode == "wide":
         return 10.0 ** rs.uniform(-6, 6, size=nb)
     if mode == "d7":                      # the D7 pattern: one block at 1, the others at 1e-4
@@ -487,6 +489,9 @@ def run_rootpad(c):
     if np.any(outside != 0):
         rec["fails"].append({"what": "matrix_inverse_pth_root: padded rows/columns of the root are not zero",
                              "max": float(np.max(np.abs(outside)))})
+    if not eigh and s > 1 and not abs(rec["metrics"]["maxev_pad"] - rec["metrics"]["maxev"]) <= 1e-4 * abs(rec["metrics"]["maxev"]):
+        rec["fails"].append({"what": "matrix_inverse_pth_root: max_eigen_value (power iteration) of the padded statistic differs",
+                             "maxev": rec["metrics"]["maxev"], "maxev_pad": rec["metrics"]["maxev_pad"]})
     fl = _flip_class(A_, B_, 0.1)
     if fl:
         rec["flips"][fl] = 1
@@ -757,3 +762,315 @@ def gen_tasks(tier, seed, thr, cut):
                 ok.append([n, s, sc])
             t["companions"] = ok or None
     return tasks
+
+
+def gen_mask_tasks(tier, seed, cut):
+    rng = random.Random(7919 * seed + 5)
+    out = [{"kind": "tf_mask", "block": 2, "nb": 2, "d": [1.0, 1.0, 2.0 ** -13, 2.0 ** -13], "cut": cut, "d7": True, "jit": True}]
+    for _ in range(5 if tier == "quick" else 30):
+        block = rng.choice([2, 3, 4])
+        nb = rng.choice([2, 3])
+        base = [rng.randint(-14, 14) for _ in range(nb)]
+        d = []
+        for b in range(nb):
+            for _i in range(block):
+                d.append(0.0 if rng.random() < 0.1 else 2.0 ** (base[b] - rng.choice([0, 0, 1, 3, 9, 10, 11, 14])))
+        out.append({"kind": "tf_mask", "block": block, "nb": nb, "d": d, "cut": cut, "jit": rng.random() < 0.5})
+    return out
+
+
+# ============================================================================ constants
+def const_stage(ctx):
+    import ast
+    from harness import consts
+    eps = consts.func_local(TF_FILE, "_pth_inv_root", "eps")
+    thr = consts.func_default(DS_FILE, "distributed_shampoo", "inverse_failure_threshold")
+    ctx.cov["constants"] = {"tearfree_cut_eps": eps, "inverse_failure_threshold": thr}
+    if not (isinstance(eps, float) and 0 < eps < 1):
+        ctx.const_fail("tearfree eigenvalue cut eps in (0,1)", {"eps": eps})
+        eps = 1e-6
+    if not (isinstance(thr, float) and 0 < thr):
+        ctx.const_fail("inverse_failure_threshold > 0", {"thr": thr})
+        thr = 0.1
+    # the cut must be taken per block: jnp.max(w, axis=-1, keepdims=True) (hypothesis of tearfree_blocks_local; D7 otherwise)
+    f = consts._find_func(consts._tree(TF_FILE), "_pth_inv_root")
+    per_block = False
+    for node in ast.walk(f):
+        if isinstance(node, ast.Call) and isinstance(node.func, ast.Attribute) and node.func.attr in ("max", "amax"):
+            kw = {k.arg: consts._lit(k.value) for k in node.keywords}
+            if kw.get("axis") in (-1, 1, (-1,), (1,)) and kw.get("keepdims") is True:
+                per_block = True
+    ctx.cov["constants"]["tearfree_cut_max_is_per_block(axis=-1)"] = per_block
+    if not per_block:
+        ctx.const_fail("tearfree_blocks_local: the eigenvalue cut is relative to the block's own maximum (jnp.max(w, axis=-1, keepdims=True))",
+                       "no max(..., axis=-1, keepdims=True) call found in tearfree/shampoo._pth_inv_root")
+    # power_iteration's start vector is a prefix of one fixed sequence (so it is padding invariant)
+    import numpy as np
+    ok = all(np.array_equal(np.random.RandomState(1729).uniform(-1.0, 1.0, n)[:s], np.random.RandomState(1729).uniform(-1.0, 1.0, s))
+             for n, s in ((5, 2), (33, 7), (128, 128)))
+    if not ok:
+        ctx.const_fail("power_iteration start vector is prefix-stable", "numpy RandomState.uniform prefix property failed")
+    return eps, thr
+
+
+# ============================================================================ model requests and comparison
+def _py_slots(blocks):
+    out = []
+    for n, blk in enumerate(blocks):
+        for a, (lo, hi) in enumerate(blk):
+            out.append({"block": n, "axis": a, "slice": [[l, h - l] for l, h in blk], "size": hi - lo})
+    return out
+
+
+def model_requests(rec):
+    t = rec["task"]
+    k = t["kind"]
+    if k == "ds_blocks":
+        return [{"op": "ds_plan", "leaves": [list(t["shape"])], "block": t["block"]}]
+    if k == "ds_companions":
+        names = sorted(t["leaves"])
+        reqs = []
+        for comp in t["companions"]:
+            shapes = {n: list(t["leaves"][n]) for n in names}
+            shapes.update({n: list(s) for n, s, _ in comp})
+            reqs.append({"op": "ds_plan", "leaves": [shapes[n] for n in sorted(shapes)], "block": t["block"]})
+        return reqs
+    if k == "tf_blocks":
+        return [{"op": "tf_plan", "shape": list(t["shape"]), "block": t["block"]}]
+    if k == "tf_mask":
+        d = t["d"]
+        B, nb = t["block"], t["nb"]
+        ws = [[kit.rat_str(Fraction(d[b * B + i]) ** 2) for i in range(B)] for b in range(nb)]
+        return [{"op": "tf_mask", "ws": ws, "eps": kit.rat_str(Fraction(t["cut"]))}]
+    if k == "rootpad" and t["root"] == "newton" and "metrics" in rec:
+        m = rec["metrics"]
+        ridge = t.get("meps", 1e-6) * max(m["maxev"], 1e-25)
+        if t["s"] == 1:
+            return []
+        return [{"op": "newton_pad", "ty": "float", "s": t["s"], "N": t["N"], "p": t["p"], "fuel": 100, "tries": 6,
+                 "A": [kit.f64_hex(v) for v in rec["A"]], "ridge": kit.f64_hex(ridge), "tol": kit.f64_hex(1e-6),
+                 "max_ratio": kit.f64_hex(1.2), "retry_thr": kit.f64_hex(0.05)}]
+    return []
+
+
+def compare_model(ctx, rec, replies):
+    import numpy as np
+    t = rec["task"]
+    k = t["kind"]
+    slim = {a: b for a, b in t.items() if a != "companions"}
+    if k == "ds_blocks":
+        r = replies[0]
+        leaf = r["leaves"][0]
+        want = _py_slots(ds_blocks_of(tuple(t["shape"]), t["block"]))
+        ok = leaf["slots"] == want and leaf["exponent"] == 2 * len(t["shape"])
+        ok = ok and rec["plan"]["nstats"] == len(leaf["slots"]) and rec["plan"]["sizes"] == [s["size"] for s in leaf["slots"]]
+        ctx.corr("ds_plan", ok)
+        if not ok:
+            ctx.disagree("ds_plan", slim, {"state": rec["plan"], "py_slots": want[:6]}, leaf, "statistic slots of a blocked leaf")
+    elif k == "ds_companions":
+        for r, lay in zip(replies, rec["layouts"]):
+            ok = r["max_size"] == lay["max_size"] and sum(r["counts"]) == lay["nstats"] and len(r["paddings"]) == lay["nstats"]
+            ctx.corr("ds_plan.max_size", ok)
+            if not ok:
+                ctx.disagree("ds_plan.max_size", slim, lay, {"max_size": r["max_size"], "counts": r["counts"]}, "tree-wide max_size / statistic count")
+            if lay["max_size"] > lay["own_max"]:
+                ctx.dist("companions.max_size_raised")
+    elif k == "tf_blocks":
+        r = replies[0]
+        want = _py_slots(tf_blocks_of(tuple(t["shape"]), t["block"]))
+        shapes = [[r["nblocks"], b, b] for b in r["block_sizes"]]
+        ok = r["slots"] == want and rec["plan"]["stats_shapes"] == shapes
+        ctx.corr("tf_plan", ok)
+        if not ok:
+            ctx.disagree("tf_plan", slim, {"state": rec["plan"], "py_slots": want[:6]}, r, "Tearfree blocks-axis slots")
+    elif k == "tf_mask":
+        r = replies[0]
+        ok = r["local"] == rec["zero"] and r["local"] == r["map_local"] and rec["offdiag"] == 0.0
+        ctx.corr("tf_mask", ok)
+        if not ok:
+            ctx.disagree("tf_mask", slim, rec["zero"], r, "which root directions are cut (zero)")
+        if t.get("d7"):
+            sep = r["shared"] != r["local"]
+            ctx.corr("tf_mask.d7_witness_separates_shared_from_local", sep)
+            if not sep:
+                ctx.disagree("tf_mask.d7", slim, rec["zero"], r, "the D7 witness no longer separates the shared-max model")
+        if r["shared"] != r["local"]:
+            ctx.nontrivial(("tf_mask", tuple(t["d"])))
+    elif k == "rootpad" and replies:
+        r = replies[0]
+        ok = r["same"] and r["outside_zero"]
+        ctx.corr("newton_pad.model_padded_equals_plain(EXACT)", ok)
+        if not ok:
+            ctx.disagree("newton_pad.model", slim, None, {"same": r["same"], "outside_zero": r["outside_zero"]},
+                         "executed instance of root_padding_invariant_newton fails")
+        m = rec["metrics"]
+        if r["plain"]["retries"] != int(m["retries"]) or r["plain"]["iters"] != int(m["iters"]):
+            ctx.dist("newton_pad.model_vs_impl.branch-flip")
+            return
+        s = t["s"]
+        H = np.array([kit.hex_f64(x) for x in r["plain"]["h"]]).reshape(s, s)
+        X = np.array(rec["root"]).reshape(s, s)
+        rel = _rel(X, H)
+        tol = max(rec.get("tol", 0.0), 1e-4) * 2
+        okv = rel <= tol
+        ctx.corr("newton_pad.impl_vs_model(TOL)", bool(okv))
+        if not okv:
+            ctx.disagree("newton_pad.impl_vs_model", slim, {"root": rec["root"][:9]}, {"h": H.ravel().tolist()[:9]}, f"rel {rel:.3g} tol {tol:.3g}")
+
+
+def rat_requests(seed, n):
+    rng = random.Random(31 * seed + 3)
+    reqs = []
+    for _ in range(n):
+        s = rng.choice([1, 2, 2, 3])
+        N = s + rng.choice([0, 1, 2, 3])
+        g = [[rng.randint(-2, 2) for _ in range(s)] for _ in range(s)]
+        A = [[sum(g[i][k] * g[j][k] for k in range(s)) + (1 if i == j else 0) for j in range(s)] for i in range(s)]
+        reqs.append({"op": "newton_pad", "ty": "rat", "s": s, "N": N, "p": rng.choice([1, 2, 4]), "fuel": rng.choice([1, 2]),
+                     "tries": rng.choice([1, 2]), "A": [str(x) for row in A for x in row], "ridge": rng.choice(["1/1000", "0", "1/10"]),
+                     "tol": "1/1000000", "max_ratio": "6/5", "retry_thr": rng.choice(["1/20", "1000"])})
+    return reqs
+
+
+# ============================================================================ orchestration
+def _slim(t):
+    return t
+
+
+def execute(ctx, tasks, rat_n=0):
+    nproc = min(14, int(os.environ.get("C08_NPROC", "14")))
+    order = sorted(range(len(tasks)), key=lambda i: {"ds_blocks": 0, "ds_companions": 1, "tf_blocks": 2}.get(tasks[i]["kind"], 3))
+    heavy = [tasks[i] for i in order if tasks[i]["kind"] in ("ds_blocks", "ds_companions", "tf_blocks")]
+    light = [tasks[i] for i in order if tasks[i]["kind"] not in ("ds_blocks", "ds_companions", "tf_blocks")]
+    chunks = [[t] for t in heavy] + kit.chunked(light, 6)
+    results = kit.parallel_map(worker, chunks, nproc=nproc)
+    recs = [r for grp in results for r in grp]
+    reqs, spans = [], []
+    for r in recs:
+        rq = model_requests(r) if "exception" not in r else []
+        spans.append((len(reqs), len(reqs) + len(rq)))
+        reqs.extend(rq)
+    rq_rat = rat_requests(ctx.seed, rat_n)
+    replies = ctx.driver(reqs + rq_rat, timeout=900) if (reqs or rq_rat) else []
+    for rp in replies:
+        if isinstance(rp, dict) and "error" in rp:
+            raise kit.InfraError("driver error: " + str(rp)[:300])
+    for rq, rp in zip(rq_rat, replies[len(reqs):]):
+        ok = rp["same"] and rp["outside_zero"]
+        ctx.corr("newton_pad.rat_padded_equals_plain(EXACT)", ok)
+        if int(rq["N"]) > int(rq["s"]):
+            ctx.nontrivial(("rat", json.dumps(rq, sort_keys=True)))
+        if not ok:
+            ctx.disagree("newton_pad.rat", rq, None, {"same": rp["same"], "outside_zero": rp["outside_zero"]},
+                         "executed rational instance of root_padding_invariant_newton fails")
+    nexc = 0
+    for r, (i0, i1) in zip(recs, spans):
+        t = r["task"]
+        k = t["kind"]
+        if "exception" in r:
+            nexc += 1
+            ctx.notes.append(f"task raised {r['exception'][:200]} :: {json.dumps(t, default=str)[:300]}")
+            if nexc <= 3:
+                ctx.violation("run raised an exception: " + r["exception"][:200], {"task": t})
+            continue
+        ctx.dist("tasks." + k + ("." + t["root"] if "root" in t else "") + (".x64" if t.get("x64") else ""))
+        n = max(r["compared"], 1)
+        ctx.evaluated(n)
+        ctx.cov["search_evaluations"] += n
+        ctx.dist("compared." + k, r["compared"])
+        ctx.dist("bitwise_equal." + k, r["bitwise"])
+        for f, c in r["flips"].items():
+            ctx.dist("classified." + f, c)
+        if r.get("reexam_suspect"):
+            ctx.dist("flip_reexamination.suspect_roots", r["reexam_suspect"])
+            ctx.notes.append(f"flip re-examination: {r['reexam_suspect']} stored root(s) do not meet their own residual bound: "
+                             + json.dumps({a: b for a, b in t.items() if a != 'companions'}, default=str)[:300])
+        key = json.dumps({a: b for a, b in t.items() if a not in ("thr", "cut")}, sort_keys=True, default=str)
+        for nt in r["nontrivial"]:
+            ctx.nontrivial((k, key, tuple(nt) if isinstance(nt, (list, tuple)) else nt))
+        for f in r["fails"][:5]:
+            ctx.violation(f["what"], {"task": t, "detail": {a: b for a, b in f.items() if a != "what"}})
+        compare_model(ctx, r, replies[i0:i1])
+    return recs
+
+
+def corpus_tasks(cut, thr):
+    d = os.path.join(kit.ROOT, "corpus", "C08")
+    out = []
+    if os.path.isdir(d):
+        for f in sorted(os.listdir(d)):
+            if f.endswith(".json"):
+                for t in json.load(open(os.path.join(d, f))).get("tasks", []):
+                    t = dict(t)
+                    if t["kind"].startswith("tf"):
+                        t["cut"] = cut
+                    else:
+                        t["thr"] = thr
+                    out.append(t)
+    return out
+
+
+def run(ctx):
+    if os.environ.get("C08_NOLEAN"):   # builder aid for mutation experiments; recorded so that it cannot pass for a full run
+        ctx.notes.append("DEV: Lean stage skipped (C08_NOLEAN)")
+        ctx.cov["dev_nolean"] = True
+        ctx.cov["obligations"], ctx.cov["discharged"] = 1, 0
+    else:
+        ctx.lean_stage()
+    cut, thr = const_stage(ctx)
+    tasks = corpus_tasks(cut, thr) + gen_tasks(ctx.tier, ctx.seed, thr, cut) + gen_mask_tasks(ctx.tier, ctx.seed, cut)
+    only = os.environ.get("C08_ONLY")
+    if only:
+        tasks = [t for t in tasks if t["kind"] in only.split(",")]
+        ctx.notes.append(f"DEV FILTER ACTIVE (C08_ONLY={only})")
+        ctx.cov["dev_filter"] = only
+    ctx.cov["rule"] = (
+        "evaluations = (leaf or block, step) pairs whose update (and state) was compared between two runs of the real optimizer, plus "
+        "root-padding pairs. A non-trivial case is a distinct (task, block/leaf, step) where the compared update is non-zero and the "
+        "locality claim has content: blocks tasks with at least two blocks whose gradient scales differ by >= 10x; companion tasks "
+        "on a leaf that has statistics; root-padding with N > s; tf_mask spectra on which the shared-max model and the per-block model "
+        "differ; rational newton_pad instances with N > s.")
+    ctx.assumptions += [
+        "TOL: update / state entries are compared relative to the leaf's (block's) own norm; tolerance max(1e-5 kS^(1/p), 8 u kS^(3/4)) "
+        "for updates and max(1e-5 kS^(1/p), 16 u kS) for stored roots, kS = (lmax + ridge) / (lmin + ridge) of the leaf's statistics, "
+        "u = 2^-24 (2^-53 under x64, where the root routine runs in float64); statistics 1e-5",
+        "discontinuities: (leaf, step) pairs are compared only while total_retries, the Newton iteration counts and the acceptance decisions "
+        "(error < inverse_failure_threshold) of both runs agree; otherwise counted as branch-flip / gate-flip, the stored roots re-examined "
+        "against their own equation, never a violation by itself (DESIGN 2.3). Note: with eigh=True the reported error is absolute "
+        "(|U' A U - diag(e)|), so gate flips concentrate at statistics of magnitude ~1e5..1e6 in float32",
+        "Tearfree: a step where an eigenvalue lies within 1e-6 (relative) of eps*max(w) is cut-boundary (not compared)",
+        "Lean hypotheses checked on the source: the Tearfree cut uses max(w, axis=-1, keepdims=True); 0 < eps < 1; exponent p = 2 * rank >= 1; "
+        "power_iteration's start vector is prefix-stable (numpy RandomState) and max_eigen_value of padded / unpadded statistics agree",
+    ]
+    recs = execute(ctx, tasks, rat_n=12 if ctx.tier == "quick" else 60)
+    mr = {}
+    for r in recs:
+        if "exception" in r:
+            continue
+        t = r["task"]
+        key = t["kind"] + ("/" + t["root"] if "root" in t else "") + ("/x64" if t.get("x64") else "")
+        mr[key] = max(mr.get(key, 0.0), r["maxrel"])
+    ctx.cov["max_rel_difference_over_kappa_root"] = mr
+    picked = 0
+    for r in recs:
+        if "exception" not in r and r["nontrivial"] and picked < 6 and r["task"]["kind"] in ("ds_blocks", "tf_blocks", "ds_companions"):
+            ctx.sample({"task": {a: b for a, b in r["task"].items() if a != "companions"}, "scales": r.get("scales"),
+                        "compared": r["compared"], "bitwise_equal": r["bitwise"], "max_rel_over_kappa": r["maxrel"], "flips": r["flips"]})
+            picked += 1
+
+
+def replay(ctx, data):
+    cases = [v["case"] for v in data.get("violations", [])]
+    cut, thr = const_stage(ctx)
+    tasks, seen = [], set()
+    for c in cases:
+        t = c.get("task") if isinstance(c, dict) else None
+        if not isinstance(t, dict) or "kind" not in t:
+            continue
+        key = json.dumps(t, sort_keys=True, default=str)
+        if key in seen:
+            continue
+        seen.add(key)
+        tasks.append(t)
+    ctx.cov["rule"] = "replay of recorded cases"
+    execute(ctx, tasks)
